@@ -229,6 +229,15 @@ def obligations(tier, rng):
                 if N <= 3 or not quick:
                     g = subst(f, ATOMS)
                     out.append(ob('C07', 'magnitude', 'magnitude/%s/%s/N=%d' % (mode, text(g), N), f=g, N=N, mode=mode, wall=300))
+    # punctual windows [a,a] with a >= 1 (an implementation may special-case begin == end)
+    if quick:
+        for k in ('once_t', 'historically_t', 'eventually_t', 'always_t', 'since_t', 'until_t', 'unless_t'):
+            for a in (1, 2):
+                f = (k, X, a, a) if k in ('once_t', 'historically_t', 'eventually_t', 'always_t') else (k, X, Y, a, a)
+                N = a + 3
+                for mode in ['offline'] + (['online'] if is_past(f) else []):
+                    out.append(ob('C07', 'sign', 'sign/%s/%s/N=%d' % (mode, text(subst(f, ATOMS)), N), f=subst(f, ATOMS), N=N, mode=mode))
+                    out.append(ob('C07', 'step', 'step/%s/%s/N=%d' % (mode, text(f), N), f=f, N=N, mode=mode))
     f2 = refsem.depth2(ops, ops, [(0, 1), (1, 2)])
     if quick:
         f2 = rng.sample(f2, len(f2) * 4 // 100)
